@@ -285,7 +285,7 @@ def rule_c(ctx):
     b = F.one("css::dom_extract::extract_style_nodes")
     nd = F.adt("NodeData")
     ev = [v["discr"] for v in nd["variants"] if v["name"] == "Element"][0]
-    disp = find_dispatch(b, "NodeData", 3)
+    disp = find_dispatch(b, "NodeData", 2)
     tb = [x for v, x in b.term(disp)["targets"] if v == ev]
     require(len(tb) == 1, "Element arm of extract_style_nodes")
     region = b.reach_from(tb[0], avoid=[disp])
